@@ -63,7 +63,7 @@ class EnvPlan:
                     raise PathEnd("closed")
                 seen.add(key)
         self.started = True
-        kind = w.choose(["yield", "return", "raise"], f"{self.name}#{self.k}")
+        kind = w.choose(["yield", "return", "return-none", "raise"], f"{self.name}#{self.k}")
         self.k += 1
         if kind == "yield":
             m = self.msg_factory(w, self.k)
@@ -73,6 +73,9 @@ class EnvPlan:
         if kind == "return":
             self.returned = Opaque(w.fresh("ret"), {"token": "ret"})
             return ("return", self.returned)
+        if kind == "return-none":           # a plan that falls off its end
+            self.returned = None
+            return ("return", None)
         self.raised = Obj(BUILTIN_CLASSES["RuntimeError"], {"args": (), "__cause__": None}, label=w.fresh("plan_error"))
         raise PyRaise(self.raised)
 
@@ -132,7 +135,10 @@ def simulate_plan(I):
         ci = I.P.class_info(MS, "_MessageHandler")
         return I.call_value(ci, native(pred), native(run))
     handlers = [mk_handler(i) for i in range(nh)]
-    sim = bare(I, Q, message_handlers=list(handlers), return_value=None, callbacks={}, next_callback_token=0)
+    # (the simulator may have been used before: it still holds the return value of the plan simulated earlier)
+    earlier = w.choose(["fresh", "used"], "simulator")
+    sim = bare(I, Q, message_handlers=list(handlers), return_value=None if earlier == "fresh" else Opaque("earlier_return", {"token": "ret0"}),
+               callbacks={}, next_callback_token=0)
     results = {}       # message id -> value the spec expects to be sent next
 
     def expected_for(msg):
@@ -266,16 +272,26 @@ def check_limits(I):
     devs = {}
 
     def mkdev(name, checkable, is_async):
-        def check_value(I_, o, a, k):
-            checks.append((o, a[0]))
+        def body(o, value):
+            # the limit check itself: for an `async def check_value` it runs when the coroutine is awaited, not when it is created
+            checks.append((o, value))
             bad = w.choose([False, True], f"{name}.check_value raises")
             if bad:
                 o.attrs["$raised"] = Obj(BUILTIN_CLASSES["ValueError"], {"args": (), "__cause__": None}, label=w.fresh("limit_error"))
                 raise PyRaise(o.attrs["$raised"])
             return None
+
+        def check_value(I_, o, a, k):
+            if is_async:
+                c = Opaque(w.fresh("check_value_coro"), {"token": "coro", "awaitable": True, "truth": True, "isinstance_default": False})
+                c.attrs["$run"] = lambda: body(o, a[0])
+                return c
+            return body(o, a[0])
         return Opaque(name, {"token": "dev", "attrs": {"name": name}, "isinstance": {"Checkable": checkable}, "isinstance_default": False,
                              "methods": {"check_value": check_value} if checkable else {}, "truth": True})
-    devs = {"m1": mkdev("m1", True, False), "m2": mkdev("m2", True, False), "x": mkdev("x", False, False)}
+    # Checkable.check_value "can be a standard function or an async function" (bluesky.protocols)
+    flavour = w.choose(["sync", "async"], "check_value flavour")
+    devs = {"m1": mkdev("m1", True, flavour == "async"), "m2": mkdev("m2", True, False), "x": mkdev("x", False, False)}
     w.stubs[(MS, "warn")] = native(lambda I_, a, k: warned.append(a[0]))
     expected = []      # spec: list of (dev, value) for set on checkable objects
     failing = {"exc": None}
@@ -307,11 +323,23 @@ def check_limits(I):
             return env.resume(tok)
     coro = I.call_value(I.get_function(CL), EnvGen())
     holder["coro"] = coro
-    try:
-        out = coro.resume(("send", None))
+    tok = ("send", None)
+    while True:
+        try:
+            out = coro.resume(tok)
+        except PyRaise as pr:
+            res = ("raise", pr.exc)
+            break
+        if out[0] == "await" and isinstance(out[1][0], Opaque) and "$run" in out[1][0].attrs:
+            # the driver awaits the coroutine an async check_value returned: its body runs now
+            try:
+                out[1][0].attrs["$run"]()
+                tok = ("send", None)
+            except PyRaise as pr:
+                tok = ("throw", pr.exc)
+            continue
         res = ("ok", out)
-    except PyRaise as pr:
-        res = ("raise", pr.exc)
+        break
     raised = [d.attrs.get("$raised") for d in devs.values() if d.attrs.get("$raised") is not None]
     if res[0] == "raise":
         ok = (raised and res[1] is raised[0]) or res[1] is getattr(env, "raised", None)
